@@ -46,6 +46,22 @@ def gen_cases(ctx):
         {"op": "aggregate", "by": ["a"], "frame": {"n": 4, "cols": [{"name": "a", "kind": "str", "vals": ["a\x00", "a", "a\x00", "b"]}, {"name": "v", "kind": "float", "vals": [1.0, 2.0, 3.0, 1.0]}]}},
         {"op": "count", "by": ["a"], "frame": {"n": 4, "cols": [{"name": "a", "kind": "str", "vals": ["a\x00", "a", "a\x00", "b"]}, {"name": "v", "kind": "float", "vals": [1.0, 2.0, 3.0, 1.0]}]}},
     ]
+    # large groups (well beyond any small-size special case of a kernel) with ties for the most common value whose first
+    # occurrence is not the smallest value: the shorthand helper is a statistic of the group's rows IN THEIR ORIGINAL ORDER
+    for _ in range(8 if ctx.tier == "quick" else 100):
+        nrow = rng.choice([140, 200, 260])
+        vals = [None] * nrow
+        for gi in (0, 1):
+            pos = [i for i in range(nrow) if i % 2 == gi]
+            k = len(pos) // 2 - 2
+            seq = [2.5] * k + [1.0] * k + [4.0] * (len(pos) - 2 * k)      # 2.5 and 1.0 tie for the most common value
+            rng.shuffle(seq)
+            j = seq.index(2.5)
+            seq[0], seq[j] = seq[j], seq[0]                                  # ... and 2.5 (not the smallest) is met first
+            for p_, v_ in zip(pos, seq):
+                vals[p_] = v_
+        spec = {"n": nrow, "cols": [{"name": "a", "kind": "int", "vals": [i % 2 for i in range(nrow)]}, {"name": "v", "kind": "float", "vals": vals}]}
+        cases.append({"op": "shorthand", "frame": spec, "by": ["a"], "helper": rng.choice(["mode", "mode", "first", "nth-2", "last"])})
     n = 600 if ctx.tier == "quick" else 15000
     for _ in range(n):
         cases.append(gen_case(rng, ctx.tier))
@@ -84,7 +100,7 @@ def helper_pair(name):
     }[name]
 
 
-NTH_FAMILY = ("first", "last", "nth1", "nth-1", "nth-2", "nth-3")
+NTH_FAMILY = ("first", "last", "nth1", "nth-1", "nth-2", "nth-3", "mode")      # helpers whose value depends on the ORDER of the group's rows
 
 
 def grouped(df, by):
